@@ -10,6 +10,7 @@ import (
 	"encoding/json"
 	"flag"
 	"fmt"
+	"go/types"
 	"os"
 	"path/filepath"
 	"runtime/debug"
@@ -66,6 +67,8 @@ func main() {
 	repo := flag.String("repo", "/repo", "repository working tree")
 	verif := flag.String("verif", "/verif", "verif directory (evidence, replay, known findings)")
 	useCHA := flag.Bool("cha", false, "use the CHA call graph instead of VTA (thorough cross-check)")
+	dumpTypes := flag.Bool("dumptypes", false, "print the unexported named types of the module with their shape as JSON (the reference table for renamed types) and exit")
+	dumpFields := flag.Bool("dumpfields", false, "print the field names of every named struct type of the module as JSON (the reference table for refField) and exit")
 	dumpFuncs := flag.Bool("dumpfuncs", false, "print the declared module functions (key, signature, declaration order) as JSON (the reference table for renamed helpers) and exit")
 	dumpParams := flag.Bool("dumpparams", false, "print the parameter names of every module function as JSON (the reference table for refName) and exit")
 	noEv := flag.Bool("noevidence", false, "do not write evidence / replay files (used by the mutation self-test)")
@@ -117,6 +120,46 @@ func main() {
 	}()
 	if p != nil {
 		p.useCHA = *useCHA
+	}
+	if *dumpTypes {
+		if p == nil {
+			fmt.Fprintln(os.Stderr, loadErr)
+			os.Exit(2)
+		}
+		b, _ := json.MarshalIndent(p.declaredTypes(), "", " ")
+		fmt.Println(string(b))
+		return
+	}
+	if *dumpFields {
+		if p == nil {
+			fmt.Fprintln(os.Stderr, loadErr)
+			os.Exit(2)
+		}
+		out := map[string][]string{}
+		for path, pk := range p.All {
+			if path != modPath && !strings.HasPrefix(path, modPath+"/") || pk.Types == nil {
+				continue
+			}
+			sc := pk.Types.Scope()
+			for _, name := range sc.Names() {
+				tn, ok := sc.Lookup(name).(*types.TypeName)
+				if !ok {
+					continue
+				}
+				st, ok := tn.Type().Underlying().(*types.Struct)
+				if !ok {
+					continue
+				}
+				var names []string
+				for i := 0; i < st.NumFields(); i++ {
+					names = append(names, st.Field(i).Name())
+				}
+				out[typeShort(tn.Type())] = names
+			}
+		}
+		b, _ := json.MarshalIndent(out, "", " ")
+		fmt.Println(string(b))
+		return
 	}
 	if *dumpFuncs {
 		if p == nil {
